@@ -10,12 +10,12 @@ PARTIAL = ('proved over the reals for all data sets: whenever line_fit / line_fi
            'OLS/RWLS, 1 for WLS), ssr is the weighted residual sum, N the number of points, df follows the N-2 / given / inf rule; '
            'r_ab passes through _clip_r (the three fits and the WTLS wrapper): the identity over the reals (|r_ab| <= 1), r or exactly +-1 in every binary64 run; '
            'the fits are total on non-degenerate data; the solution is unique, hence RWLS with equal scale factors = OLS and '
-           'shift/scale equivariance of the whole OLS and WLS results (values, ssr, u(a), u(b), cov(a,b), dof, N; RWLS only through the '
-           'sums-level lemma); the extra input of each prediction method (all three classes, y_from_x and x_from_y) has the '
+           'shift/scale equivariance of the whole OLS, WLS and RWLS results (values, ssr, u(a), u(b), cov(a,b), dof, N) for unchanged '
+           'uncertainties / scale factors; the extra input of each prediction method (all three classes, y_from_x and x_from_y) has the '
            'stated value and uncertainty, and the RWLS noise scale agrees between y_from_x and x_from_y; y_from_x with a plain '
            'number, for OLS, WLS and RWLS fit objects (finite dof): value a + b*x + 0, components u(a), x*u(b), u(noise), the '
            'noise input joins the ensemble of (a,b), and the result keeps the fit\'s dof (C13_one_ensemble_dof: one ensemble, '
-           'one Welch-Satterthwaite term) when its variance is not 0.  Not proved: equivariance of the RWLS result as such; '
+           'one Welch-Satterthwaite term) when its variance is not 0.  Not proved: '
            'the same value/dof statement for x_from_y (its extra input and the shared evaluator only), for uncertain x, '
            'and for infinite dof.  By correspondence / oracle only: those, the WTLS wrapper against type_b.line_fit_wtls '
            '(external computation), labels.')
